@@ -62,7 +62,7 @@ CHECKS = {
             "failed-commit-then-drop is covered by C08's surviving-storage enumeration",
             "DESIGN.md 3/C11"),
     "C13": (True, "seqx+crashx", "model_checking",
-            "bounded-exhaustive enumeration of fragmenting histories with compact(), plus crash enumeration inside compaction",
+            "bounded-exhaustive enumeration of fragmenting histories with compact(), crash enumeration inside compaction, and all schedules up to a preemption bound of compact() racing a transaction that creates a savepoint",
             "compact() from every explored fragmented state must refuse exactly when readers/savepoints exist, else keep the dump, not grow the file, terminate (repeated calls reach false) and every crash state inside compaction must recover to the unchanged contents.",
             "bounded depth; backend-call budget as the termination proxy",
             "DESIGN.md 3/C13"),
@@ -79,7 +79,7 @@ CHECKS = {
     "C03": (True, "schedx", "model_checking",
             "stateless model checking of the real code under a controlled scheduler: all thread schedules up to a preemption bound (iterative context bounding) with a shared-object reduction",
             "Every schedule with at most k preemptions of 2-3 real threads (writer/readers, writer/writer, page reuse and non-durable churn under a reader that is parked at a gate, Database drop racing a live transaction, savepoint drop racing a commit) is executed; single-writer, serial order, no lost update, snapshot windows, monotonic views, no deadlock, accounting and the backend contract are judged on every one.",
-            "sequentially consistent scheduling at synchronisation operations only; bounded threads and preemptions; reduction to objects shared by >= 2 threads (cross-checked against the unreduced search in the thorough tier)",
+            "sequentially consistent scheduling at synchronisation operations only; bounded threads and preemptions; reduction to objects shared by >= 2 threads (cross-checked against the unreduced search in the thorough tier); one known finding (scenario S8 at two preemptions: a reader parses a freed and reused page, thorough tier, see known_findings.json and findings/)",
             "DESIGN.md 3/C03"),
     "C12": (True, "corruptx", "fault_enumeration",
             "exhaustive enumeration of byte/run/page-swap/truncation alterations over the read set of closed images, executed through the real open + check_integrity + read path",
@@ -107,8 +107,8 @@ CHECKS = {
             "redb 3.0.0 from the offline registry; two known findings (composite type byte, Ok(false) on trimmed files) recorded in known_findings.json",
             "DESIGN.md 3/C19"),
     "C20": (True, "contractx", "model_checking",
-            "contract monitor on the storage backend over exhaustively enumerated failing opens, fault indices, read-only opens, deferred closes and operation sequences",
-            "The monitor (bounds, close exactly once, nothing after close, read-only is read-only) is evaluated on every enumerated failing open, every I/O-error index of open, read-only opens, Database drops with live transactions, and every depth-2 operation sequence; it is also active inside every other check.",
+            "contract monitor on the storage backend over exhaustively enumerated failing opens, fault indices, read-only opens, deferred closes and operation sequences, plus all schedules up to a preemption bound of drop(Database) against a live reader with backend calls as scheduling points",
+            "The monitor (bounds, close exactly once, nothing after close, read-only is read-only) is evaluated on every enumerated failing open, every I/O-error index of open, read-only opens, Database drops with live transactions, every depth-2 (thorough: depth-4) operation sequence, and every schedule with at most 1 (thorough: 2) preemptions of scenario S10 (drop(Database) on one thread, reads through a live read transaction on another); it is also active inside every other check.",
             "in-memory backend; three known findings (reads beyond the length on bad geometry / truncated files, see known_findings.json)",
             "DESIGN.md 3/C20"),
 }
@@ -153,7 +153,7 @@ def main():
             {"name": "crashx", "path": "harness/src/crashx.rs", "serves_properties": ["C01", "C07", "C11", "C13"], "kind_free_text": "crash-point / lost-write / torn-write enumerator over recorded storage logs"},
             {"name": "faultx", "path": "harness/src/faultx.rs", "serves_properties": ["C08", "C05"], "kind_free_text": "backend-call fault index enumerator"},
             {"name": "contractx", "path": "harness/src/contractx.rs", "serves_properties": ["C20"], "kind_free_text": "backend contract monitor + failing-open enumerations"},
-            {"name": "schedx", "path": "harness/src/schedx.rs", "serves_properties": ["C03", "C16", "C13"], "kind_free_text": "controlled scheduler, preemption-bounded DFS over schedules of the real code (worker processes)"},
+            {"name": "schedx", "path": "harness/src/schedx.rs", "serves_properties": ["C03", "C16", "C13", "C20"], "kind_free_text": "controlled scheduler, preemption-bounded DFS over schedules of the real code (worker processes)"},
             {"name": "corruptx", "path": "harness/x/corruptx/src/corruptx.rs", "serves_properties": ["C12"], "kind_free_text": "alteration enumerator over closed images"},
             {"name": "allocx", "path": "harness/x/allocx/src/allocx.rs", "serves_properties": ["C14"], "kind_free_text": "explicit-state search of the allocator"},
             {"name": "typex", "path": "harness/x/typex/src/typex.rs", "serves_properties": ["C15"], "kind_free_text": "closed-domain enumeration of key encodings"},
